@@ -165,85 +165,84 @@ end
 section
 variable {cfg : Cfg σ} {cx : Ctx} (hc : TypedCfg cfg cx) (F : Follow)
 
-/-- what the induction establishes for the recursive callback -/
+/-- what the induction establishes for the recursive callback (`Ann`: for an annotation of the chunk stream with the
+occurrence of every layout chunk) -/
 def NodeOK (cfg : Cfg σ) (cx : Ctx) (F : Follow) (wn : WalkFn σ) : Prop :=
   ∀ path src k as defn s cs s', wfVal cx (.node k as) = true → wn path src (.node k as) defn s = .ok (cs, s') →
     match defn with
-    | Option.none => ∃ a, certOf cx k = some a ∧ InLang F a (syms cfg.hd cs)
-    | some d => (absRules cx k d).bad = false → (∀ p ∈ (absRules cx k d).need, p ∈ F) →
-        InLang F (absRules cx k d).abs (syms cfg.hd cs)
+    | Option.none => ∃ a, certOf cx k = some a ∧ Ann cfg.hd F a cs
+    | some d => ∀ p, (absRules cx k p d).bad = false → (∀ q ∈ (absRules cx k p d).need, q ∈ F) →
+        Ann cfg.hd F (absRules cx k p d).abs cs
 
 include hc
 
 theorem walkValue_typed {wn : WalkFn σ} (hwn : NodeOK cfg cx F wn) (path : Path) (src : Src) (cur : Val)
     (pos : Option Int) (st : Step) (v : Val) (s : σ) (cs : List Chunk) (s' : σ) {A : Abs} (hv : ValIn cx A v)
     (h : walkValue cfg wn path src cur pos st v s = .ok (cs, s')) (hne : isEmptyVal v = false) :
-    InLang F A (syms cfg.hd cs) := by
+    Ann cfg.hd F A cs := by
   cases hv with
   | none hn => simp [isEmptyVal] at hne
   | tok t h1 h2 =>
     simp only [walkValue] at h
     obtain ⟨c, g1, g2⟩ := except_map_ok h
     simp only [Prod.mk.injEq] at g2
-    rw [← g2.1, emitToken_syms hc pos cur src t c g1]
-    exact ⟨fun he => by simp at he, fun x hx => by simp at hx; subst hx; exact h1,
-      fun x hx => by simp at hx; subst hx; exact h2, trivial⟩
+    rw [← g2.1]
+    exact ann_sym cfg.hd F (Sym.t (sig t)) (by rw [emitToken_syms hc pos cur src t c g1, erase_t]) h1 h2
   | node k as a' hw hcert hle =>
     simp only [walkValue] at h
     obtain ⟨a, g1, g2⟩ := hwn _ _ k as Option.none _ _ _ hw h
     rw [hcert] at g1
     cases g1
-    exact inLang_le g2 hle
+    exact ann_le g2 hle
 
 /-- the empty or non-empty value of an attribute rule -/
 theorem attrValue_typed {wn : WalkFn σ} (hwn : NodeOK cfg cx F wn) (path : Path) (src : Src) (cur : Val)
     (pos : Option Int) (st : Step) (v : Val) (s : σ) (cs : List Chunk) (s' : σ) {A : Abs} (hv : ValIn cx A v)
     (h : (if isEmptyVal v then (.ok ([], s) : Except Err (List Chunk × σ))
           else walkValue cfg wn path src cur pos st v s) = .ok (cs, s')) :
-    InLang F A (syms cfg.hd cs) := by
+    Ann cfg.hd F A cs := by
   split at h
   · rename_i hem
     simp only [Except.ok.injEq, Prod.mk.injEq] at h
     rw [← h.1]
     cases hv with
-    | none hn => exact inLang_nil F hn
+    | none hn => exact ann_nil cfg.hd F hn
     | tok t _ _ => simp [isEmptyVal] at hem
     | node k as _ _ _ _ => simp [isEmptyVal] at hem
   · rename_i hem
     exact walkValue_typed hc F hwn path src cur pos st v s cs s' hv h (by simpa using hem)
 
 omit hc in
-theorem absRules_cons (cx : Ctx) (k : String) (r : Rule) (rs : List Rule) :
-    absRules cx k (r :: rs) = ⟨(absRule cx k r).abs.seq (absRules cx k rs).abs,
-      (absRule cx k r).need ++ cross (absRule cx k r).abs (absRules cx k rs).abs ++ (absRules cx k rs).need,
-      (absRule cx k r).bad || (absRules cx k rs).bad⟩ := by
+theorem absRules_cons (cx : Ctx) (k : String) (p : Nat) (r : Rule) (rs : List Rule) :
+    absRules cx k p (r :: rs) = ⟨(absRule cx k p r).abs.seq (absRules cx k (p + 1) rs).abs,
+      (absRule cx k p r).need ++ cross (absRule cx k p r).abs (absRules cx k (p + 1) rs).abs ++ (absRules cx k (p + 1) rs).need,
+      (absRule cx k p r).bad || (absRules cx k (p + 1) rs).bad⟩ := by
   simp only [absRules]
 
 omit hc in
 theorem rules_typed (k : String) (f : Rule → σ → Except Err (List Chunk × σ))
-    (hf : ∀ r s cs s', f r s = .ok (cs, s') → (absRule cx k r).bad = false → (∀ p ∈ (absRule cx k r).need, p ∈ F) →
-      InLang F (absRule cx k r).abs (syms cfg.hd cs)) :
-    ∀ (rs : List Rule) (s : σ) (cs : List Chunk) (s' : σ), seqM f rs s = .ok (cs, s') →
-      (absRules cx k rs).bad = false → (∀ p ∈ (absRules cx k rs).need, p ∈ F) →
-      InLang F (absRules cx k rs).abs (syms cfg.hd cs) := by
+    (hf : ∀ p r s cs s', f r s = .ok (cs, s') → (absRule cx k p r).bad = false → (∀ q ∈ (absRule cx k p r).need, q ∈ F) →
+      Ann cfg.hd F (absRule cx k p r).abs cs) :
+    ∀ (rs : List Rule) (p : Nat) (s : σ) (cs : List Chunk) (s' : σ), seqM f rs s = .ok (cs, s') →
+      (absRules cx k p rs).bad = false → (∀ q ∈ (absRules cx k p rs).need, q ∈ F) →
+      Ann cfg.hd F (absRules cx k p rs).abs cs := by
   intro rs
   induction rs with
   | nil =>
-    intro s cs s' h _ _
+    intro p s cs s' h _ _
     rw [seqM_nil_ok] at h
     rw [h.1]
     simp only [absRules, Res.ok]
-    exact inLang_nil F rfl
+    exact ann_nil cfg.hd F rfl
   | cons r rs ih =>
-    intro s cs s' h hb hn
+    intro p s cs s' h hb hn
     rw [seqM_cons_ok] at h
     obtain ⟨c1, s1, c2, h1, h2, rfl⟩ := h
     rw [absRules_cons] at hb hn ⊢
     simp only [Bool.or_eq_false_iff] at hb
     simp only [List.mem_append] at hn
-    rw [syms_append]
-    exact inLang_append (hf r s c1 s1 h1 hb.1 (fun p hp => hn p (Or.inl (Or.inl hp))))
-      (ih s1 c2 s' h2 hb.2 (fun p hp => hn p (Or.inr hp))) (fun p hp => hn p (Or.inl (Or.inr hp)))
+    exact ann_append (hf p r s c1 s1 h1 hb.1 (fun q hq => hn q (Or.inl (Or.inl hq))))
+      (ih (p + 1) s1 c2 s' h2 hb.2 (fun q hq => hn q (Or.inr hq))) (fun q hq => hn q (Or.inl (Or.inr hq)))
 
 end
 end CalmVerif.TokenAdj
